@@ -25,6 +25,7 @@ META = {
               'Decimal(x, precision) rounding contract'],
     'assumptions': ['reference model: dict (period, currency) -> last written rate'],
 }
+META['bounds'].append('two histories per validity kind with look-ups of 3 pairs between the updates')
 
 # pool entries: (validity, [(currency, amount, multiple), ...]); every amount is unique
 D = datetime.date
